@@ -68,6 +68,8 @@ type Recorder struct {
 // R is the process-wide recorder.
 var R = &Recorder{}
 
+func init() { R.init("") }
+
 // Tier/Seed/Shard/NShards are read from the environment by Main.
 var (
 	Tier      = "quick"
